@@ -8,6 +8,9 @@
 package c06
 
 import (
+	"encoding/json"
+	"fmt"
+
 	"verif/checks/chainx"
 	"verif/mc"
 )
@@ -40,7 +43,18 @@ func Run(r *mc.Run) {
 		menu := append(append([]string{}, chainx.MenuCore...), chainx.MenuMore...)
 		chainx.Explore(r, h, []chainx.ParamCfg{noForced, freq3, forced}, menu, 4, 3)
 	}
+	runForks(r)
 	r.Assume("Go's per-iteration map order cannot be enumerated by a controlled explorer; the R repeated imports are a sampled supplement for that clause, the exhaustive part is builder/importer agreement over all histories")
 }
 
-func Replay(r *mc.Run, v *mc.Violation) { chainx.ReplayHist(r, v, hooks(r)) }
+func Replay(r *mc.Run, v *mc.Violation) {
+	if m, ok := v.Input.(map[string]interface{}); ok && m["fork"] != nil {
+		bs, _ := json.Marshal(v.Input)
+		var c ForkCase
+		json.Unmarshal(bs, &c)
+		chainx.SetParams(forkCfg())
+		fmt.Println(c.String(), "=>", runFork(r, c))
+		return
+	}
+	chainx.ReplayHist(r, v, hooks(r))
+}
